@@ -564,6 +564,36 @@ fn gen_c06(thorough: bool) -> Vec<Scenario> {
                 }
             }
         }
+        // a backlog of four messages of which the k-th is the slow one: the kill can land during ANY handler of the backlog
+        for slow_idx in 0..3usize {
+            for gate_first in [false, true] {
+                let mut ids = Ids(0);
+                let mut a = ActorSpec::plain(4);
+                if gate_first {
+                    a.on_start = gated(Outcome::Ok);
+                }
+                a.on_stop = gated(Outcome::Ok);
+                let mut tells = Vec::new();
+                for i in 0..4usize {
+                    let mut m = MsgSpec::m1(ids.next());
+                    if i == slow_idx {
+                        m = m.steps(vec![Step::Yield, Step::Yield]);
+                    } else {
+                        m.entry_yield = false;
+                    }
+                    tells.push(send(if i == 3 { SendKind::Ask } else { SendKind::Tell }, 0, m));
+                    if i < 3 {
+                        tells.push(Step::Fuse);
+                    }
+                }
+                let c0 = Program::new(vec![(0, 0)], tells);
+                let c1 = Program::new(vec![(0, 0)], vec![Step::Kill(0)]);
+                n += 1;
+                let mut s = scn(format!("c06-{n}-seed{seed}-backlog-slow{slow_idx}-gate{gate_first}"), vec![a], vec![c0, c1], &[]);
+                s.seed = *seed;
+                out.push(s);
+            }
+        }
         // kill from the actor's own handler, kill after the actor is dead
         {
             let mut ids = Ids(0);
@@ -917,8 +947,9 @@ fn gen_c10(thorough: bool) -> Vec<Scenario> {
                     for death in [Death::None, Death::StopDrain, Death::Kill(10), Death::Kill(20), Death::Panic(10), Death::Panic(20)] {
                         for erased in [false, true] {
                             if !thorough {
+                                // quick tier: every pair of the three "heavy" dimensions, but not all three at once
                                 let heavy = full_until.is_some() as u32 + !matches!(death, Death::None) as u32 + erased as u32;
-                                if heavy > 1 {
+                                if heavy > 2 || (heavy == 2 && erased && !matches!(nat, Nat::At(0) | Nat::Never)) {
                                     continue;
                                 }
                             }
